@@ -31,6 +31,10 @@ pub trait Arith: Clone + Send + Sync {
         *a == self.zero()
     }
     fn show(&self, a: &Self::El) -> String;
+    /// the documented order of field elements, when the oracle can decide it by itself
+    fn doc_cmp(&self, _a: &Self::El, _b: &Self::El) -> Option<std::cmp::Ordering> {
+        None
+    }
 }
 
 /// conversion between the repository's field elements and oracle elements
@@ -160,6 +164,10 @@ impl Arith for Toy {
     }
     fn from_u64(&self, k: u64) -> [u64; 2] {
         [k % self.p, 0]
+    }
+    fn doc_cmp(&self, a: &[u64; 2], b: &[u64; 2]) -> Option<std::cmp::Ordering> {
+        // prime fields: integer order; quadratic extensions: c1 first, then c0
+        Some((a[1], a[0]).cmp(&(b[1], b[0])))
     }
     fn show(&self, a: &[u64; 2]) -> String {
         if self.deg == 1 {
